@@ -7,15 +7,20 @@ from framework import Result
 
 ID = 'C01'
 LEAN_TARGETS = ['TexSoupProofs.Properties.C01', 'TexSoupProofs.Properties.C02Strings', 'TexSoupProofs.Properties.C13Positions',
-                'TexSoupProofs.Properties.C01Grammar']
+                'TexSoupProofs.Properties.C01Grammar', 'TexSoupProofs.Properties.CertSound']
 THEOREMS = ['TexSoup.C01.roundtrip', 'TexSoup.C01.roundtrip_tolerant', 'TexSoup.C01.node_text_is_its_tokens',
             'TexSoup.C02.document_parses', 'TexSoup.C02.document_roundtrip', 'TexSoup.C13.node_first_char',
-            'TexSoup.C01G.document_roundtrip', 'TexSoup.C01G.source_roundtrip', 'TexSoup.C01G.document_roundtrip_spaced']
+            'TexSoup.C01G.document_roundtrip', 'TexSoup.C01G.source_roundtrip', 'TexSoup.C01G.document_roundtrip_spaced',
+            'TexSoup.C02.cert_sound', 'TexSoup.C01G.cert_sound']
 PARTIAL = ['the property in its own words is C01G.document_roundtrip: every well-formed document of the Lean grammar with adjacent '
            'argument groups (squeezeD d = d) and plainly written environment names parses, in both modes, to its tree, and '
            'the tree prints as the source (token-level completeness composed with the tokenizer inverse and the '
            'serialisation lemma); that gen_doc.py (the Python description of '
-           '"well-formed document") only emits documents of that grammar is not proved but compared on every run; '
+           '"well-formed document") only emits documents of that grammar is not proved but compared on every run, '
+           'and every generated / corpus document of a run is certified individually (driver request `cert`: a '
+           'grammar document is rebuilt from tokens and tree by an untrusted search and the hypotheses of '
+           'C02.cert_sound / C01G.cert_sound are evaluated on it by the compiled definitions; counts in the '
+           'cert_* statistics and the rule text); '
            'restrictions of the proved grammar: single-token environment names, no continuation arguments after a '
            'fixed-signature command']
 TRUSTED = ['harness/gen_doc.py (grammar of documented constructs, renderer with source spans, frame conditions)',
@@ -113,7 +118,7 @@ def _corpus_one(doc):
 def _jobs(ctx, tag, total, model):
     per = ctx.pick(250, 500)
     return [{'seed': '%s/%d/%s/%d' % (ID, ctx.seed, tag, k), 'n': n, 'gen': _gen, 'oracle': _oracle,
-             'nontrivial': _nontrivial, 'model': model, 'tols': (0,), 'depth': ctx.pick(6, 12)}
+             'nontrivial': _nontrivial, 'model': model, 'cert': model, 'tols': (0,), 'depth': ctx.pick(6, 12)}
             for k, n in enumerate(L.split(total, per))]
 
 
@@ -150,11 +155,17 @@ def correspondence(ctx):
                    impl=a[:300], model=b[:300])
     import lib_gram
     lib_gram.run(ctx, r, ctx.pick(60000, 600000), ctx.pick(3, 4))   # documents of the proved grammar
+    # certificates: generated documents are certified in the workers (job flag 'cert'), the corpus here
+    lib_gram.run_corpus(r, docs)
     # one well-formed document per code point beyond ASCII (sampled in the quick tier, all of them in the thorough one)
     import parsecorr
     parsecorr.run_cases(r, [(d, 0, ()) for d in gen.codepoint_docs(ctx.rng('cp'), ctx.thorough)], tag='codepoint')
     r.rule = ('`parse` (tolerance 0, with the document\'s skip_envs) compared textually, positions and serialisation '
-              'included, on ' + RULE_DOCS % ctx.pick(6, 12) + '; plus the repository corpus')
+              'included, on ' + RULE_DOCS % ctx.pick(6, 12) + '; plus the repository corpus; ' +
+              lib_gram.cert_sentence(r.stats) + ' – of these %d generated and %d corpus documents also satisfy the '
+              'adjacency and plain-name hypotheses of C01G.document_roundtrip; hypotheses true but treeD d != model '
+              'parse would contradict theorem C02.document_parses (failure key certificate-contradiction)'
+              % (r.stats.get('cert_certified_adjacent_plain', 0), r.stats.get('cert_corpus_certified_adjacent_plain', 0)))
     return r
 
 
